@@ -46,7 +46,18 @@ PROGRAMS = {
     'remove_explicit_return_none': [('def f():\n return None', 'def f():\n 0'), ('def f():\n x=1\n return', 'def f():\n x=1'), ('def f():\n if a:\n  return None\n x=1', 'def f():\n if a:\n  return\n x=1'),
                                     ('def f():\n return 0', 'def f():\n return 0'), ('def f():\n return (None)', 'def f():\n 0'), ('lambda:None', 'lambda:None'),
                                     ('def f():\n return None\n return None', 'def f():\n return'), ('async def f():\n return None', 'async def f():\n 0'),
-                                    ('def f():\n return False', 'def f():\n return False')],
+                                    ('def f():\n return False', 'def f():\n return False'),
+                                    # a return that ends a nested suite is not the last statement of the function: one case per compound statement
+                                    ('def f():\n if a:\n  x=1\n  return\n else:\n  y=1\n  return None', 'def f():\n if a:\n  x=1\n  return\n else:\n  y=1\n  return'),
+                                    ('def f():\n with a:\n  x=1\n  return', 'def f():\n with a:\n  x=1\n  return'),
+                                    ('def f():\n try:\n  x=1\n  return\n except E:\n  y=1\n  return\n else:\n  z=1\n  return\n finally:\n  w=1\n  return',
+                                     'def f():\n try:\n  x=1\n  return\n except E:\n  y=1\n  return\n else:\n  z=1\n  return\n finally:\n  w=1\n  return'),
+                                    ('def f():\n try:\n  x=1\n  if x:\n   y=1\n   return\n except E:\n  z=1\n else:\n  w=1', 'def f():\n try:\n  x=1\n  if x:\n   y=1\n   return\n except E:\n  z=1\n else:\n  w=1'),
+                                    ('def f():\n for a in b:\n  x=1\n  return\n else:\n  y=1\n  return', 'def f():\n for a in b:\n  x=1\n  return\n else:\n  y=1\n  return'),
+                                    ('def f():\n while a:\n  x=1\n  return\n else:\n  y=1\n  return', 'def f():\n while a:\n  x=1\n  return\n else:\n  y=1\n  return'),
+                                    ('def f():\n match a:\n  case 1:\n   x=1\n   return', 'def f():\n match a:\n  case 1:\n   x=1\n   return'),
+                                    ('def f():\n def g():\n  x=1\n  return\n return g', 'def f():\n def g():\n  x=1\n return g'),
+                                    ('class A:\n def f(self):\n  x=1\n  return None', 'class A:\n def f(self):\n  x=1')],
     'remove_object_base': [('class A(object):\n x=1', 'class A:\n x=1'), ('class A(B, object):\n x=1', 'class A(B):\n x=1'), ('class A(m.object):\n x=1', 'class A(m.object):\n x=1'),
                            ('class A(object, metaclass=M):\n x=1', 'class A(metaclass=M):\n x=1'), ('class A(Object):\n x=1', 'class A(Object):\n x=1'),
                            ('x=f(object)', 'x=f(object)'), ('class A(*object):\n x=1', 'class A(*object):\n x=1')],
